@@ -25,6 +25,7 @@ def main(seed, tier):
         for k in ("runs", "steps", "plans", "inside", "after"):
             agg[k] += out[k]
         agg["dups"] += out.get("dups", 0)
+        agg["slow"] = agg.get("slow", 0) + out.get("slow_reference", 0)
         agg["forkserver_runs"] += out.get("forkserver_runs", 0)
         agg["forkserver_discrepancy"] += out.get("forkserver_discrepancy", 0)
         merge(fired, out["fired"])
@@ -69,6 +70,7 @@ def main(seed, tier):
         "runs_via_fresh_exec": agg["runs"] - agg["forkserver_runs"],
         "forkserver_vs_exec_discrepancies": agg["forkserver_discrepancy"],
         "duplicate_violation_reports_suppressed": agg["dups"],
+        "items_with_slow_reference_run_sampled_instead_of_enumerated": agg.get("slow", 0),
         "known_findings_matched": known,
         "real_code": "the complgen binary built from /repo's working tree (main.rs, whole library, std BufWriter/write_all/EINTR loops, clap, anyhow)",
         "stubbed": "the kernel side of open/read/write/statx/lseek on the input, destination, dot files and stderr (procsim.so); nothing of complgen",
